@@ -107,7 +107,16 @@ fn env_run(prop: &'static str, tier: &str, shard: Option<&str>) -> Report {
         (_, true) => 5,
     };
     let cfg = envcheck::EnvCfg { prop, horizon };
-    let subs = subjects::all_subjects(prop, thorough);
+    let mut subs = subjects::all_subjects(prop, thorough);
+    if thorough {
+        // Steady state too: every subject with inputs is also enumerated
+        // after a first delivery that gets it past its start-up transient.
+        for s in subs.iter_mut() {
+            if s.warmup.is_empty() && !s.infinite_source && !s.ins_hint_no_inputs() {
+                s.warmup = vec![envx::Act::FeedAll(2 * s.quantum.max(1) + 1)];
+            }
+        }
+    }
     for (k, sub) in subs.iter().enumerate() {
         if k % n != i {
             continue;
@@ -122,7 +131,7 @@ fn env_run(prop: &'static str, tier: &str, shard: Option<&str>) -> Report {
     if prop == "C19" && i == 0 {
         subjects_derive::eof_matrix(&mut rep);
     }
-    if prop == "C16" {
+    if matches!(prop, "C16" | "C14" | "C12") {
         subjects_src::cleanup();
     }
     rep.set("horizon", serde_json::json!(horizon));
